@@ -12,13 +12,24 @@ import vlib
 from vlib import Infra, log
 from specs import graph_property
 
-AUTH_RESET = dict(name="Reset", kind="none", auth="none", pay="none", old="none", res="ok")
+AUTH_RESET = dict(name="Reset", kind="none", auth="none", pay="none", old="none", via="none", ent=[], res="ok")
 # the authority is identified by the account it decodes to: the upper-case bech32 spelling of the gov address decodes to
 # the governance module account and therefore IS the governance authority (x/evm CallContract accepts it, the other
 # handlers refuse it; neither contradicts the property) - it is not an authority class here (lead decision).
 # gov-suffix-21 / gov-suffix-32 / gov-prefix-32: valid bech32 (chain prefix) of LONGER addresses that contain the 20 gov
 # bytes at the end / at the start - different accounts, must be rejected by every kind.
-AUTH_CLASSES = ["gov", "othermodule", "user", "empty", "gov-hex", "gov-otherprefix", "gov-suffix-21", "gov-suffix-32", "gov-prefix-32"]
+# user-hex / garbage: the 0x form of an ordinary account / a string that is no address in any encoding. Together with
+# empty, gov-hex and gov-otherprefix these do not parse as account addresses of the chain: the router's stateless
+# validation refuses them, delivered directly to the registered service implementation (Via "server") the handler's own
+# check is all there is.
+AUTH_CLASSES = ["gov", "othermodule", "user", "empty", "gov-hex", "gov-otherprefix", "gov-suffix-21", "gov-suffix-32", "gov-prefix-32",
+                "user-hex", "garbage"]
+VIA = ["router", "server"]
+# entry lists of the raw store update (ShapeEntries in Authority.tla): distinct cells with matching / mismatching old
+# values, and the same cell twice (chained = later entry states what the earlier one wrote; stale = later entry states the
+# value from before the message)
+SHAPES_QUICK = ["match", "mismatch_first", "mismatch_second", "chained", "stale", "stale_repeat"]
+SHAPES_ALL = SHAPES_QUICK + ["chained_apart", "stale_apart", "stale_back"]
 
 AUTH_FORMULAS = {
     "C16": dict(invariants=["C16_RejectedLeavesNoTrace"],
@@ -61,16 +72,17 @@ def authority(pid):
             log("  %s%s%s" % (k["kind"], "" if k["routable"] else "  [no handler on the router]",
                               "  [third-party: other-authority half only]" if k["kind"] in reject_only else ""))
 
-        def consts(maxapplied):
-            return dict(Kind=names, Routable=routable, StoreKind=store, RejectOnly=reject_only, ResetKind=reset, Auth=AUTH_CLASSES, MaxApplied=maxapplied)
+        def consts(maxapplied, shapes=SHAPES_ALL):
+            return dict(Kind=names, Routable=routable, StoreKind=store, RejectOnly=reject_only, ResetKind=reset, Auth=AUTH_CLASSES,
+                        Shape=shapes, Via=VIA, MaxApplied=maxapplied)
 
-        def gen(name, tiers, maxapplied, shards, rej, sdkaddr=False):
+        def gen(name, tiers, maxapplied, shards, rej, sdkaddr=False, shapes=SHAPES_ALL):
             hs = [dict(chain="app", MaxApplied=maxapplied, Kind=names)]
             if sdkaddr:
                 # same graph once more in a process without fx-core's 20-byte address verifier: longer look-alike
                 # authorities then pass stateless validation and must be refused by the handlers themselves
                 hs.append(dict(chain="sdkaddr", MaxApplied=maxapplied, Kind=names, AddrCfg="sdk"))
-            return dict(name=name, tiers=tiers, consts=consts(maxapplied), harness=hs,
+            return dict(name=name, tiers=tiers, consts=consts(maxapplied, shapes), harness=hs,
                         shards=shards, rej_sample=rej, may_never_succeed=())
 
         # MaxApplied = n: states in which at most n privileged operations have taken effect are expanded
@@ -81,7 +93,7 @@ def authority(pid):
                 # every kind x authority class x payload class in the initial state, exhaustively
                 gen("a0", ["quick", "thorough"], 0, 1, 0, sdkaddr=True),
                 # the same after each single privileged operation has taken effect (rejections sampled in quick)
-                gen("a1", ["quick"], 1, 14, 60),
+                gen("a1", ["quick"], 1, 14, 60, shapes=SHAPES_QUICK),
                 gen("a1", ["thorough"], 1, 16, 0),
                 gen("a2", ["thorough"], 2, 16, 30)]
         rc = graph_property(
@@ -92,7 +104,9 @@ def authority(pid):
                 "messages are routed through the application's MsgServiceRouter with ValidateBasic and per-message atomicity (world.Handle), as baseapp does; the complete multistore dump is compared before/after every operation the property says must have no effect",
                 "authority classes: gov module account (canonical lower-case bech32); distribution module account; a user; empty; the gov address as 0x hex; the gov address bytes with bech32 prefix cosmos; valid chain-prefix bech32 of 21- and 32-byte addresses that end / start with the 20 gov bytes (other accounts). Authority identity is the decoded account: the upper-case bech32 spelling of the gov address (accepted by x/evm CallContract via strings.EqualFold, refused by the other handlers) decodes to the governance account and is not treated as a foreign authority",
                 "payload class 'reset' (kinds with a delete/reset form: " + ", ".join(reset) + "): zero-value custom params / removal of a registered alias / removal of a disabled-precompile entry / overwrite of an existing raw store value, each against a target that exists so the form would take effect",
-                "payload classes: one valid and one invalid payload per kind (invalid = stateless validation failure or handler-level failure, for MsgUpdateStore an unknown store space in the SECOND entry)",
+                "payload classes: one valid and one invalid payload per kind (invalid = stateless validation failure or handler-level failure, for MsgUpdateStore an unknown store space in the LAST entry)",
+                "delivery: 'router' = the application's MsgServiceRouter (stateless validation, then the handler); 'server' = the service implementation each module registers for the message type, captured by running the application's own RegisterServices against a recording configurator and invoked directly without stateless validation (as other modules and the repository's keeper tests call it), so authority strings that are no account address of the chain (empty, 0x forms, foreign prefix, garbage) reach the handler's own check; direct delivery is driven with the valid and reset payloads (third-party kinds: empty body, foreign authorities)",
+                "raw store update: the message is a list of [cell, old, new] entries over two cells of the " + "feegrant" + " store (symbolic values cur/next/tmp/other mapped to the cell's current byte, current+1, 0xee, 0xff); shapes: " + ", ".join(SHAPES_ALL) + " (quick, after one applied operation: " + ", ".join(SHAPES_QUICK) + "); whether the stated old values hold is computed by TLC from the entries (each old value against the cell's value when the entry is reached), the same entries are what the harness sends",
                 "the initial-state sweep is executed twice: with the production address configuration (fx prefix, 20-byte address verifier: longer look-alike addresses already fail stateless validation) and in a process with the SDK default address configuration (no verifier, as the repository's keeper tests run), where they reach the handlers",
                 "third-party kinds (cosmos-sdk, ibc, ethermint) are driven with non-governance authorities only (no payload generator): " + ", ".join(reject_only),
                 "kinds registered in the interface registry without a handler on the router (legacy fx gov messages) must be rejected for every authority",
@@ -106,6 +120,6 @@ specs.REGISTRY["C16"] = authority("C16")
 
 specs.MANIFEST.update({
  "C16": dict(category="model_checking", technique="TLA+ spec Authority.tla with the set of privileged message kinds discovered from the running application; TLC model check + replay of every (kind, authority class, payload class) on the real message router with a byte-exact multistore dump comparison + TLC evaluation of the C16 formulas on recorded real behaviours",
-             text="Authority.tla: a privileged message takes effect iff its authority is the governance module account and its payload is valid (raw store update: and all stated old values match); otherwise it is rejected and nothing changes. The kinds are every registered message whose descriptor names `authority` as signer (16 crosschain kinds over 8 chain modules, erc20 x5, evm, gov x3, legacy gov x3 without handler, plus 17 third-party kinds driven with foreign authorities only). Each kind x 9 authority classes (incl. hex / foreign-prefix encodings of the gov address and longer addresses containing the gov bytes) x valid/invalid payload (plus the delete/reset form of the four kinds that have one, against existing targets; x3 old-value classes for the store update) is executed through the real router in the initial state and after every single applied operation; effects are projected from kind-specific observables, and for every case that must not take effect the full multistore dump must be byte-identical.",
+             text="Authority.tla: a privileged message takes effect iff its authority is the governance module account and its payload is valid (raw store update: and all stated old values match); otherwise it is rejected and nothing changes. The kinds are every registered message whose descriptor names `authority` as signer (16 crosschain kinds over 8 chain modules, erc20 x5, evm, gov x3, legacy gov x3 without handler, plus 17 third-party kinds driven with foreign authorities only). Each kind x 11 authority classes (incl. hex / foreign-prefix encodings of the gov address, longer addresses containing the gov bytes, the 0x form of a user and a non-address string) x valid/invalid payload (plus the delete/reset form of the four kinds that have one, against existing targets; x up to 9 entry lists for the store update: distinct cells matching/mismatching, the same cell twice chained / stale) is executed through the real router and, without stateless validation, on the service implementation registered for the type, in the initial state and after every single applied operation; effects are projected from kind-specific observables, and for every case that must not take effect the full multistore dump must be byte-identical.",
              note="one valid and one invalid payload per kind, not arbitrary payloads; third-party kinds only for the rejection half; messages via the router without signatures; trusted: TLC, the per-kind observables, the dump comparison", ref="5 (C16)"),
 })
